@@ -25,7 +25,7 @@ NSHARDS = {"quick": 4, "thorough": 16}
 CLAUSES = {
     "C20.order": 20000, "C20.order.complete": 800, "C20.time": 20000,
     "C20.chain": 8000, "C20.chain.mcfg": 2000, "C20.log.state": 8000, "C20.lbook.rep": 8000,
-    "C20.fresh.equal": 1500, "C20.fresh.noalias": 3000, "C20.fresh.library": 300, "C20.fresh.class": 150,
+    "C20.fresh.equal": 1500, "C20.fresh.noalias": 3000, "C20.fresh.library": 300, "C20.fresh.class": 400,
     "C20.start.unmodified": 2000,
     "C20.evolve.returns": 800,
 }
@@ -254,10 +254,12 @@ class Monitor(object):
                 nsub = info["user_subclass_instances"]
                 if nsub or wrong:
                     ctx.sumnote("user-subclass instances compared with their counterpart in a first state", nsub)
-                    ctx.check("C20.fresh.class", not wrong, SITE + "reset",
-                              "each object of a replicate's first state is an instance of the class of its counterpart in the stored initial state",
-                              "copy of " + ", ".join(sorted({c for c, _ in wrong})) if wrong else "instances of user subclasses of library classes",
-                              witness=self.witness(replicate=exp.r, differing_objects=[[c, f] for c, f in wrong][:6]), coords=self.coords)
+                    # one key per class whose copy is of another class (a subclass of a user's subclass counts as that subclass)
+                    for nm in sorted({c.replace("UserSubclass2[", "UserSubclass[") for c, _ in wrong}) or [None]:
+                        ctx.check("C20.fresh.class", nm is None, SITE + "reset",
+                                  "each object of a replicate's first state is an instance of the class of its counterpart in the stored initial state",
+                                  "copy of " + nm if nm else "instances of user subclasses of library classes",
+                                  witness=self.witness(replicate=exp.r, differing_objects=[[c, f] for c, f in wrong][:6]), coords=self.coords)
                     ld = [(c, f) for c, f in ld if "__class__" not in f]     # whatever else differs there follows from the class
                 ctx.check("C20.fresh.library", not ld, SITE + "reset",
                           "each library object of a replicate's first state is observably equal (fields and behaviour) to its counterpart in the stored initial state",
